@@ -312,8 +312,14 @@ void checkL3(const plan::Plan& p, const RunData& rd, hz::RunResult* res) {
         bool other = false;
         for (auto& o : msgs) {
           if (o.second.name == m.name) continue;
-          if (o.second.chain.empty()) { if (fits(o.second, o.second.id, e)) other = true; continue; }
-          for (auto& part : o.second.chain) { Bytes oid = o.second.id; oid.insert(oid.end(), part.first.begin(), part.first.end()); if (fits(o.second, oid, e)) other = true; }
+          // any definition may have been sent to this destination (explicit -d ZZ), and a hex command may carry any
+          // number of bytes behind an ID: another definition whose ID is a prefix of the telegram makes it ambiguous
+          const MsgModel& oc = o.second;
+          auto prefix = [&e, &oc](const Bytes& fullId) {
+            return e.master.size() >= 5 + fullId.size() && e.master[2] == oc.pb && e.master[3] == oc.sb && std::equal(fullId.begin(), fullId.end(), e.master.begin() + 5);
+          };
+          if (oc.chain.empty()) { if (prefix(oc.id)) other = true; continue; }
+          for (auto& part : oc.chain) { Bytes oid = oc.id; oid.insert(oid.end(), part.first.begin(), part.first.end()); if (prefix(oid)) other = true; }
         }
         if (!other || !unambiguousOnly) v.push_back(&e);
       }
